@@ -31,3 +31,5 @@ prop('CX2', ['F7', 'F9', 'T6', 'K7py', 'P2py', 'K9py'], 'tmp', [])
 
 prop('C13', ['D1', 'D2', 'D3', 'K2'], 'dict order', ['nestings'])
 prop('CX3', ['G3', 'G4', 'K6py', 'T5'], 'tmp', [])
+
+prop('C18', ['T1', 'T2', 'F8', 'T5', 'T6', 'K7py', 'T3'], 'twins', ['all inputs'])
